@@ -38,7 +38,8 @@ def weighted(pairs):
     """pairs: [(weight, strategy)] -> strategy (weights by repetition inside one_of)"""
     pool = []
     for w, s in pairs:
-        pool += [s] * w
+        # distinct objects: Hypothesis de-duplicates identical strategies inside one_of
+        pool += [s.map(lambda v: v) for _ in range(w)]
     return st.one_of(pool)
 
 
